@@ -9,7 +9,8 @@ from C19_util import FQ, frac_of
 import C19_hist
 
 PID = "C19"
-PROP_FILES = ["Prop", "PropR"]
+PROP_FILES = ["Prop", "PropR", "PropTies"]
+EXTRA_COQ_DIRS = ["C04", "C07"]    # PropTies.v: karplus_strong = C04's filter model, resample's Lagrange = C07's
 # Prop.v (and all it imports) is axiom-free: enforced syntactically by extra() below.  PropR.v (sinusoid over
 # the reals) uses Coq's Reals: exactly the four classical axioms below.
 ALLOWED_AXIOMS = [r"ClassicalDedekindReals\.sig_forall_dec$", r"ClassicalDedekindReals\.sig_not_dec$",
